@@ -11,16 +11,21 @@ package main
 // multiset of process / load calls, the progress counter.
 
 import (
+	"bytes"
 	"context"
 	"encoding/binary"
 	"fmt"
+	"os"
+	"os/exec"
 	"sort"
 	"strings"
 	"sync"
 	"time"
 
 	"github.com/restic/restic/internal/data"
+	"github.com/restic/restic/internal/global"
 	"github.com/restic/restic/internal/restic"
+	"github.com/restic/restic/internal/ui/progress"
 )
 
 var _ = verifRegister("C42", engineC42)
@@ -423,6 +428,99 @@ func c42Gen(rng *vrng, shape int) (trees []*c42Tree, roots, seen0, dat0 []uint64
 	return
 }
 
+
+// c42CheckCLI: whole-program scenario for the checker's use of StreamTrees.  A scratch
+// repository gets a crafted snapshot whose root tree has a directory node pointing at a tree
+// blob that is stored under its true SHA-256 but is (variant "mid") valid JSON up to a node
+// with a wrong-typed field, (variant "start") undecodable from the first token, or (variant
+// "ok") healthy.  Then the real CLI (`this binary` without RESTIC_VERIF, i.e. restic's main)
+// runs `check`.  A reachable unreadable tree must be REPORTED (exit code 1), never crash.
+func c42CheckCLI(c *vctx, variant string) (exit int, panicked bool, detail string, err error) {
+	e := newVenv(c, "checkcli-"+variant)
+	if _, se, err := e.cli("init"); err != nil {
+		return 0, false, "", fmt.Errorf("init: %v %s", err, se)
+	}
+	var sub []byte
+	switch variant {
+	case "mid":
+		sub = []byte(`{"nodes":[{"name":"a","type":"file","mode":420,"content":[]},{"name":5,"type":"file"},{"name":"c","type":"file","content":[]}]}` + "\n")
+	case "start":
+		sub = []byte(`{"nodez": 1`)
+	default:
+		sub = []byte(`{"nodes":[{"name":"a","type":"file","mode":420,"content":[]}]}` + "\n")
+	}
+	_, _, err = e.run(func(ctx context.Context, gopts global.Options) error {
+		printer := progress.NewTerminalPrinter(false, 0, gopts.Term)
+		repo, err := global.OpenRepository(ctx, gopts, printer)
+		if err != nil {
+			return err
+		}
+		if err := repo.LoadIndex(ctx, printer); err != nil {
+			return err
+		}
+		var root restic.ID
+		err = repo.WithBlobUploader(ctx, func(ctx context.Context, up restic.BlobSaverWithAsync) error {
+			subID, _, _, err := up.SaveBlob(ctx, restic.TreeBlob, sub, restic.ID{}, false)
+			if err != nil {
+				return err
+			}
+			tw := data.NewTreeWriter(up)
+			if err := tw.AddNode(&data.Node{Name: "d", Type: data.NodeTypeDir, Mode: os.ModeDir | 0o755, Subtree: &subID}); err != nil {
+				return err
+			}
+			if err := tw.AddNode(&data.Node{Name: "f", Type: data.NodeTypeFile, Mode: 0o644, Content: restic.IDs{}}); err != nil {
+				return err
+			}
+			root, err = tw.Finalize(ctx)
+			return err
+		})
+		if err != nil {
+			return err
+		}
+		sn, err := data.NewSnapshot([]string{"/crafted"}, nil, "verif", time.Unix(1700000000, 0))
+		if err != nil {
+			return err
+		}
+		sn.Tree = &root
+		_, err = data.SaveSnapshot(ctx, repo, sn)
+		return err
+	})
+	if err != nil {
+		return 0, false, "", fmt.Errorf("craft: %v", err)
+	}
+	self, err := os.Executable()
+	if err != nil {
+		return 0, false, "", err
+	}
+	ctx, cancel := context.WithTimeout(context.Background(), 120*time.Second)
+	defer cancel()
+	cmd := exec.CommandContext(ctx, self, "check", "--no-cache", "--no-lock")
+	var env []string
+	for _, kv := range os.Environ() {
+		if !strings.HasPrefix(kv, "RESTIC_") {
+			env = append(env, kv)
+		}
+	}
+	cmd.Env = append(env, "RESTIC_REPOSITORY="+e.repo, "RESTIC_PASSWORD="+vPassword)
+	var ob, eb bytes.Buffer
+	cmd.Stdout, cmd.Stderr = &ob, &eb
+	runErr := cmd.Run()
+	exit = cmd.ProcessState.ExitCode()
+	out := ob.String() + eb.String()
+	panicked = strings.Contains(out, "panic:") || strings.Contains(out, "goroutine ")
+	for _, l := range strings.Split(out, "\n") {
+		if strings.Contains(l, "panic:") || strings.Contains(l, "Fatal:") || strings.Contains(l, "error for tree") || strings.Contains(l, "failed to decode") {
+			detail += strings.TrimSpace(l) + " | "
+		}
+	}
+	if len(detail) > 300 {
+		detail = detail[:300]
+	}
+	_ = runErr
+	_ = os.RemoveAll(e.base)
+	return exit, panicked, detail, nil
+}
+
 func engineC42(c *vctx) error {
 	c.Header("Model.C42m", "C42m.case", "C42m.check_case")
 	c.Preamble("Import C42m.")
@@ -481,6 +579,25 @@ func engineC42(c *vctx) error {
 		ts = append(ts, root, &c42Tree{id: 20, nodes: []c42Node{{typ: 0, content: []uint64{1100}}}})
 		emit("corpus-huge", ts, []uint64{1}, nil, nil, r0, false)
 		emit("corpus-huge", ts, []uint64{1, 5}, nil, nil, r0, true)
+	}
+	// the checker's process callback on an unreadable reachable tree, through the real CLI
+	for _, v := range []struct{ variant, kind string }{{"ok", ""}, {"start", "check-cli-undecodable-tree"}, {"mid", "check-cli-broken-tree"}} {
+		exit, panicked, detail, err := c42CheckCLI(c, v.variant)
+		if err != nil {
+			return fmt.Errorf("check cli scenario %s: %w", v.variant, err)
+		}
+		c.Info("check-cli-"+v.variant, fmt.Sprintf("exit=%d panic=%v %s", exit, panicked, detail))
+		if v.variant == "ok" {
+			if exit != 0 {
+				return fmt.Errorf("check cli control scenario: healthy crafted snapshot gives exit %d: %s", exit, detail)
+			}
+			continue
+		}
+		reported := exit == 1 && !panicked
+		// model: tree 2 is reachable and unreadable -> the traversal's client must see an error
+		term := fmt.Sprintf("C42m.mk [(1%%N, Some [mkn TDir (Some 2%%N) []; mkn TFile None []]); (2%%N, None)] [1%%N] [] [] %s [] [] [] %s",
+			coqBool(reported), coqZ(int64(exit)))
+		c.Case(v.kind, false, 2, term, fmt.Sprintf("restic check on a snapshot with a tree blob broken at %q -> exit=%d panic=%v %s", v.variant, exit, panicked, detail))
 	}
 	rounds := c.n(260, 4000)
 	for r := 0; r < rounds; r++ {
